@@ -18,7 +18,9 @@ ASSUMPTIONS = ['which text is accepted as a definition: the scanners of label, d
                'correspondence run compares Document.footnotes, order included']
 
 VARIANTS = {'foo': ['foo', 'Foo', 'FOO', ' foo ', 'fOO'], 'two words': ['two words', 'Two  Words', 'TWO\twords', 'two\nwords'],
-            'straße': ['straße', 'STRASSE', 'Strasse', 'STRAẞE'], 'ünï': ['ünï', 'ÜNÏ'], 'x': ['x', 'X']}
+            'straße': ['straße', 'STRASSE', 'Strasse', 'STRAẞE'], 'ünï': ['ünï', 'ÜNÏ'], 'x': ['x', 'X'],
+            # labels with escaped brackets inside: the closing bracket of the label is the first UNESCAPED one
+            'a\\]b': ['a\\]b', 'A\\]B', 'a\\]B'], 'c\\[d': ['c\\[d', 'C\\[D']}
 
 
 def norm(label):
@@ -130,7 +132,7 @@ SENT_WORDS = ['see', 'the', 'note', 'x1', 'end.', 'q)', '(r', 'a-b', 'c+d', 'e=f
 def gen_sentence(rng):
     """the class of C07_reference_in_sentence / C07_reference_resolves: ONE shortcut reference [w] in a one-line sentence of trigger-free text,
     no '(' right after it; its definitions (1-3, the first one decides) before or after the sentence, possibly inside a quote, labels spelled differently"""
-    key = rng.choice(list(VARIANTS))
+    key = rng.choice([k for k in VARIANTS if '\\' not in k])      # trigger-free labels only: the class of the theorem
     forms = [v for v in VARIANTS[key] if '\n' not in v]
     pre = ' '.join(rng.choice(SENT_WORDS) for _ in range(rng.randint(0, 3)))
     post = ' '.join(rng.choice(SENT_WORDS) for _ in range(rng.randint(0, 3)))
@@ -214,9 +216,10 @@ def run(ctx, only=None):
                 mm = re.search(r'%s\( (.*?) \)%s' % (u, u), out, re.S)
                 inner = mm.group(1) if mm else None
                 m = re.fullmatch(r'<a href="([^"]*)"(?: title="([^"]*)")?>(.*)</a>', inner, re.S) if inner is not None else None
-                if m is not None and html.unescape(m.group(3)).strip() != lab.strip():
+                shown = re.sub(r'\\([!-/:-@\[-`{-~])', r'\1', lab)       # what the label looks like as text: backslash escapes are processed there (not for matching)
+                if m is not None and html.unescape(m.group(3)).strip() != shown.strip():
                     m = None
-                if hit is None and m is None and inner is not None and html.unescape(inner) != ('[%s][]' % lab if form == 'collapsed' else '[%s]' % lab):
+                if hit is None and m is None and inner is not None and html.unescape(inner) != ('[%s][]' % shown if form == 'collapsed' else '[%s]' % shown):
                     ctx.failing.append({'interface': 'oracle', 'input': {'text': text, 'use': u, 'label': lab},
                                         'what': 'a %s reference with no matching definition does not stay literal text' % form, 'observed': inner, 'kf': None})
                     continue
